@@ -42,5 +42,9 @@ Definition mhm_finalize (c : mh_ctx mhm_state) : list N * (N * N) :=
   let h2 := mur_tail h1 (firstn (N.to_nat (total32 mod 16)%N) tail_data) total32 in
   (mh_final sha1_algo (mhc_tail (list N) mh_sha1_block partial total32 (fst (mc_state c))), h2).
 
+(* the sha1 interim digests after the tail blocks *)
+Definition mhm_tail (c : mh_ctx mhm_state) : list N :=
+  mhc_tail (list N) mh_sha1_block (mc_partial c) (w32 (mc_total c)) (fst (mc_state c)).
+
 Definition mhm_run (seed : N) (segs : list (list N)) : list N * (N * N) :=
   mhm_finalize (fold_left mhm_update segs (mhm_init seed)).
